@@ -515,6 +515,51 @@ def check_module(stats, rnd, text, leaves, bools, tight, n_random):
                     stats.fail({"kind": "bounds-not-tight"}, dict(case, expression=et), "%s: inferred [%s, %s], attained over all corners [%d, %d]" % (et, it.minimum_value, it.maximum_value, min(vals), max(vals)))
 
 
+def type_signature(module):
+    """Inferred type of every expression of one module of an IR, in traversal order."""
+    out = []
+
+    def one(expression):
+        t = expression.type
+        if t.which_type == "integer":
+            i = t.integer
+            out.append(("int", i.minimum_value, i.maximum_value, i.modulus, i.modular_value))
+        elif t.which_type == "boolean":
+            out.append(("bool", t.boolean.value if t.boolean.has_field("value") else None))
+        else:
+            out.append((t.which_type,))
+
+    traverse_ir.fast_traverse_ir_top_down(module, [ir_data.Expression], one)
+    return out
+
+
+def check_import_isolation(stats, text_a, text_b):
+    """What the compiler infers about a module's expressions is a fact about that module: it is the
+    same whether the module is compiled alone or together with another module that uses the same
+    structure, field and virtual-field names for different things."""
+    alone = {}
+    for name, text in (("a", text_a), ("b", text_b)):
+        r = emb.compile_files({"m.emb": text}, gen_header=False)
+        if r.exc or not r.accepted:
+            return
+        alone[name] = type_signature([m for m in r.ir.module if m.source_file_name == "m.emb"][0])
+    files = {"m.emb": 'import "imp.emb" as imp\n' + text_a, "imp.emb": text_b}
+    r = emb.compile_files(files, gen_header=False)
+    case = {"files": files, "main": "m.emb"}
+    if r.exc:
+        stats.fail(dict(kind="exception", **r.exc_sig), case, r.exc_text)
+        return
+    stats.case(["import-isolation", text_a, text_b], True, ["import-isolation"], sample=None)
+    if not r.accepted:
+        stats.fail({"kind": "import-changes-acceptance"}, case, "two modules accepted on their own are rejected when one imports the other (without using it): %s" % r.errors[0][0].message.split("\n")[0])
+        return
+    for name, fname in (("a", "m.emb"), ("b", "imp.emb")):
+        got = type_signature([m for m in r.ir.module if m.source_file_name == fname][0])
+        if got != alone[name]:
+            k = next((i for i in range(min(len(got), len(alone[name]))) if got[i] != alone[name][i]), min(len(got), len(alone[name])))
+            stats.fail({"kind": "inference-depends-on-other-module", "module": "importer" if name == "a" else "imported"}, case, "expression #%d of %s: inferred %r when compiled alone, %r when compiled together with a module that reuses its names" % (k, fname, alone[name][k] if k < len(alone[name]) else None, got[k] if k < len(got) else None))
+
+
 def node_kind(e):
     if e.which_expression == "function":
         return str(e.function.function).split(".")[-1]
@@ -533,6 +578,10 @@ def shard(idx, seed, n, n_random):
         g = ExprGen(rnd)
         text, tight = g.module()
         check_module(stats, rnd, text, g.leaves, g.bools, tight, n_random)
+        if case_seed % 3 == 0:
+            g2 = ExprGen(random.Random(case_seed + 1))
+            text2, _ = g2.module()
+            check_import_isolation(stats, text, text2)
 
     vlib.hyp_run(st.integers(0, 2**63), body, n, seed=seed * 1087 + idx)
     stats.samples = stats.samples[:4]
